@@ -79,12 +79,14 @@ def check_graph(res, conn, rng, tag):
         for (a, b), g in zip(pairs, got):
             if bool(g) != S.edge(conn, a, b):
                 res.fail("C13:is_connection", f"is_connection({a},{b})={bool(g)} vs {S.edge(conn,a,b)}", {**inp, "a": a, "b": b}, bool(g))
-    # path validation: valid walks, broken walks, out of bounds, empty
-    for _ in range(4):
+    # path validation: valid walks, walks through walls, jumps between non-adjacent cells, repeated cells, out of bounds, empty
+    for _ in range(6):
         n = int(rng.integers(0, 5))
         path = [cells[int(rng.integers(len(cells)))]] if n else []
         for _k in range(n - 1):
-            nb = S.neighbors(conn, path[-1]) if rng.random() < 0.7 else S.lattice_neighbors((R, C), path[-1]) + [(-1, 0), (R, 0), (0, C)]
+            u = rng.random()
+            # mostly real moves; sometimes a move through a wall or out of the grid; sometimes a JUMP to any cell (the same cell included)
+            nb = S.neighbors(conn, path[-1]) if u < 0.6 else (S.lattice_neighbors((R, C), path[-1]) + [(-1, 0), (R, 0), (0, C)] if u < 0.8 else list(cells))
             if not nb:
                 break
             path.append(nb[int(rng.integers(len(nb)))])
